@@ -7,7 +7,8 @@
 // planner + TSDB LeveledCompactor + BlocksCleaner with delete delay 0) is run
 // with fresh objects again and again: call i is frozen before mutating bucket
 // operation crashes[i] (a process death), later calls run undisturbed until a
-// call issues no mutation (quiescence). The observable is the block-level
+// call issues no mutation (quiescence); every call that returns is followed by
+// the cleanup of aborted partial uploads (aged past the threshold). The observable is the block-level
 // history (block became visible / was marked / disappeared) and, for the
 // initial bucket and after every block-level change, the set of blocks a store
 // gateway's fetcher selects, with deletion marks hidden at once (delay 0) and
@@ -240,7 +241,7 @@ func selected(ctx context.Context, snap map[string][]byte, delay time.Duration) 
 	return ids, nil
 }
 
-func newCompactor(ctx context.Context, bkt objstore.InstrumentedBucket, dir string, vertical bool) (*compact.BucketCompactor, error) {
+func newCompactor(ctx context.Context, bkt objstore.InstrumentedBucket, dir string, vertical bool) (*compact.BucketCompactor, *compact.Syncer, *block.IgnoreDeletionMarkFilter, error) {
 	logger := log.NewNopLogger()
 	reg := prometheus.NewRegistry()
 	ctr := func() prometheus.Counter { return prometheus.NewCounter(prometheus.CounterOpts{Name: "x"}) }
@@ -251,20 +252,21 @@ func newCompactor(ctx context.Context, bkt objstore.InstrumentedBucket, dir stri
 		ignoreDeletionMarkFilter, duplicateBlocksFilter, noCompactMarkerFilter,
 	})
 	if err != nil {
-		return nil, err
+		return nil, nil, nil, err
 	}
 	sy, err := compact.NewMetaSyncer(nil, nil, bkt, metaFetcher, duplicateBlocksFilter, ignoreDeletionMarkFilter, ctr(), ctr(), 0)
 	if err != nil {
-		return nil, err
+		return nil, nil, nil, err
 	}
 	comp, err := tsdb.NewLeveledCompactor(ctx, reg, logutil.GoKitLogToSlog(logger), ranges, nil, nil)
 	if err != nil {
-		return nil, err
+		return nil, nil, nil, err
 	}
 	planner := compact.NewPlanner(logger, ranges, noCompactMarkerFilter)
 	grouper := compact.NewDefaultGrouper(logger, bkt, false, vertical, reg, ctr(), ctr(), ctr(), metadata.NoneFunc, 1, 1)
 	cleaner := compact.NewBlocksCleaner(logger, bkt, ignoreDeletionMarkFilter, 0, ctr(), ctr())
-	return compact.NewBucketCompactor(logger, sy, grouper, planner, comp, dir, bkt, 1, false, cleaner)
+	bc, err := compact.NewBucketCompactor(logger, sy, grouper, planner, comp, dir, bkt, 1, false, cleaner)
+	return bc, sy, ignoreDeletionMarkFilter, err
 }
 
 func smpCoq(l []smp) string {
@@ -426,20 +428,7 @@ func run(raw json.RawMessage) (common.Case, error) {
 	for id := range num {
 		visible[id] = true
 	}
-	for call := 0; call < len(in.Crashes)+8; call++ {
-		crash := -1
-		if call < len(in.Crashes) {
-			crash = in.Crashes[call]
-		}
-		rb := cu.NewRecBucket(inner)
-		rb.CrashAt = crash
-		bc, err := newCompactor(ctx, rb, compactDir, in.Vertical)
-		if err != nil {
-			return c, err
-		}
-		rerr, crashed, wait := cu.RunAction(rb, func() error { return bc.Compact(ctx) })
-		teardown = append(teardown, func() { rb.Release(); wait() })
-		ops := cu.MutOps(rb.Ops())
+	absorb := func(call int, ops []cu.Op) ([]string, error) {
 		var names []string
 		for _, o := range ops {
 			names = append(names, o.Kind+" "+o.Name)
@@ -461,11 +450,11 @@ func run(raw json.RawMessage) (common.Case, error) {
 			case o.Kind == "upload" && rel == block.MetaFilename && !visible[idStr]:
 				var m metadata.Meta
 				if err := json.Unmarshal(o.Body, &m); err != nil {
-					return c, err
+					return nil, err
 				}
 				sm, err := blockSamples(o.Snap, id)
 				if err != nil {
-					return c, fmt.Errorf("reading new block %s: %w", id, err)
+					return nil, fmt.Errorf("reading new block %s: %w", id, err)
 				}
 				var src, par []string
 				for _, s := range m.Compaction.Sources {
@@ -489,15 +478,59 @@ func run(raw json.RawMessage) (common.Case, error) {
 			}
 			a, b, err := selCoq(o.Snap, fmt.Sprintf("call %d after %q", call, o.Kind+" "+o.Name), false)
 			if err != nil {
-				return c, err
+				return nil, err
 			}
 			steps = append(steps, common.App("mkstep", hop, a, b))
 			lastSnap = o.Snap
 		}
+		return names, nil
+	}
+	for call := 0; call < len(in.Crashes)+8; call++ {
+		crash := -1
+		if call < len(in.Crashes) {
+			crash = in.Crashes[call]
+		}
+		rb := cu.NewRecBucket(inner)
+		rb.CrashAt = crash
+		bc, sy, delMarks, err := newCompactor(ctx, rb, compactDir, in.Vertical)
+		if err != nil {
+			return c, err
+		}
+		rerr, crashed, wait := cu.RunAction(rb, func() error { return bc.Compact(ctx) })
+		teardown = append(teardown, func() { rb.Release(); wait() })
+		ops := cu.MutOps(rb.Ops())
+		names, err := absorb(call, ops)
+		if err != nil {
+			return c, err
+		}
+		var cleanupNames []string
+		if !crashed && rerr == nil {
+			// the cleanup part of the cycle (cmd/thanos/compact.go cleanPartialMarked): aborted partial
+			// uploads left by earlier crashes are made old enough (3 days) to be cleaned
+			objs := inner.Objects()
+			hasMeta := map[string]bool{}
+			for n := range objs {
+				if strings.HasSuffix(n, "/"+block.MetaFilename) {
+					hasMeta[strings.TrimSuffix(n, "/"+block.MetaFilename)] = true
+				}
+			}
+			for n := range objs {
+				if i := strings.Index(n, "/"); i > 0 && !hasMeta[n[:i]] {
+					_ = inner.ChangeLastModified(n, time.Now().Add(-72*time.Hour))
+				}
+			}
+			rbp := cu.NewRecBucket(inner)
+			ctr := func() prometheus.Counter { return prometheus.NewCounter(prometheus.CounterOpts{Name: "x"}) }
+			compact.BestEffortCleanAbortedPartialUploads(ctx, log.NewNopLogger(), sy.Partial(), rbp, ctr(), ctr(), ctr(), delMarks.DeletionMarkBlocks())
+			cleanupNames, err = absorb(call, cu.MutOps(rbp.Ops()))
+			if err != nil {
+				return c, err
+			}
+		}
 		if crashed {
 			crashes++
 		}
-		obs = append(obs, map[string]any{"call": call, "crash_before_op": crash, "crashed": crashed, "error": fmt.Sprint(rerr), "ops": names})
+		obs = append(obs, map[string]any{"call": call, "crash_before_op": crash, "crashed": crashed, "error": fmt.Sprint(rerr), "ops": names, "partial_cleanup_ops": cleanupNames})
 		if !crashed && rerr != nil {
 			return c, fmt.Errorf("Compact call %d returned an error without any fault: %v", call, rerr)
 		}
